@@ -137,7 +137,7 @@ def write_value(rng, x, kind, blk, force=None, memo=None):
     u = blk[kind] if form == 'bare' else rng.choice(L.UNITS[kind])
     f = L.unit_info(u)[0]
     v = L.round_sig(Fraction(x) / f, 15)
-    node = v if form == 'bare' else Q(v, u)
+    node = v if form == 'bare' else Q(v, u, sci=rng.choice([None] * 6 + [1, 2]))
     res = (node, v * f, form)
     if memo is not None and kind == 'T':
         memo[x] = res
